@@ -29,8 +29,8 @@ def analyse_negative(ctx, want_props):
                 mine = attributed(diags, d)
                 for x in mine:
                     claimed.add(id(x))
-                if d["prop"] not in want_props:
-                    continue
+                if d["prop"] not in want_props or d.get("rechecked"):
+                    continue  # (rechecked witnesses get their verdict in the crate they were re-compiled in)
                 props = {d["prop"]}
                 key = "%s|%s|%s|rejected%s" % (cname, d["path"], d["clause"], "" if label == "neg" else "|" + label)
                 ctx.note_shape(props, cname + "::" + d["path"], ("reject", d["clause"], d.get("base"), json.dumps(d.get("shape"), sort_keys=True)))
